@@ -103,7 +103,7 @@ func checkEvictionShortfall(c *Ctx, rule string) {
 				if h := loopHeaderOf(cs.Block()); h != nil {
 					for b := range loopBody(h) {
 						if ifi, ok := b.Instrs[len(b.Instrs)-1].(*ssa.If); ok {
-							if valueMentionsField(ifi.Cond, "maxDepth", 0) {
+							if valueMentionsField(ifi.Cond, p.rolesOf("SQLiteStore").maxDepth, 0) || valueMentionsField(ifi.Cond, p.rolesOf("MemoryStore").maxDepth, 0) {
 								inLoop = true
 							}
 						}
@@ -111,7 +111,7 @@ func checkEvictionShortfall(c *Ctx, rule string) {
 				}
 				single := false
 				for _, pc := range dominatingConds(cs.Block(), nil) {
-					if valueMentionsField(pc.Cond, "maxDepth", 0) {
+					if valueMentionsField(pc.Cond, p.rolesOf("SQLiteStore").maxDepth, 0) || valueMentionsField(pc.Cond, p.rolesOf("MemoryStore").maxDepth, 0) {
 						single = true
 					}
 				}
